@@ -70,6 +70,163 @@ def parse_corpus(out, pos):
     return corpus
 
 
+def execute(rep, pa, consts, desc, numpy_seed=None, script=None, lenient=False):
+    """one corpus_shuffle run with the primitives recorded (or scripted); returns (model wire line, meta) or None when the run is skipped / reported"""
+    from pyannote.core.segment import SEGMENT_PRECISION
+    CST = pa.CorpusShufflingTool
+    units, m, anns, flags, include_ref = desc["units"], desc["magnitude"], desc["annotators"], desc["flags"], desc["include_ref"]
+    names = ["annotator_%d" % i for i in range(anns)] if isinstance(anns, int) else list(anns)
+    ref = gen.build_continuum(pa, units, names=["Ref"])
+    if "constructed_with_magnitude" in desc:
+        # the magnitude is a public attribute (tests/test_cst.py reassigns it): a tool built at another magnitude and then set to m
+        # must behave like a tool built at m - nothing may be frozen at construction time
+        cst = CST(desc["constructed_with_magnitude"], ref)
+        cst.magnitude = m
+        rep.count("magnitude_reassigned")
+    else:
+        cst = CST(m, ref)
+    if numpy_seed is not None:
+        np.random.seed(numpy_seed)
+    try:
+        with Draws(script=script, lenient=lenient) as dr:
+            corpus = cst.corpus_shuffle(anns, shift=flags["shift"], false_pos=flags["false_pos"], false_neg=flags["false_neg"],
+                                        split=flags["split"], cat_shuffle=flags["cat_shuffle"], include_ref=include_ref)
+    except ValueError as e:
+        if "duration 0.0" in str(e):
+            rep.count("zero_length_draw_skipped")     # measure-zero draw: Continuum.add refuses the unit and the run stops (modelled as None)
+            return None
+        rep.case()
+        rep.violation("corpus_shuffle-raises", dict(desc, error=repr(e)), "corpus_shuffle raised %r" % (e,))
+        return None
+    except Exception as e:
+        rep.case()
+        rep.violation("corpus_shuffle-raises", dict(desc, error=repr(e)), "corpus_shuffle raised %r" % (e,))
+        return None
+    cats = sorted(ref.categories)
+    cid = {c: i for i, c in enumerate(cats)}
+    ref_units = [(u.segment.start, u.segment.end, cid[u.annotation]) for u in ref["Ref"]]
+    init = [list(ref_units) for _ in sorted(names)]
+    ravg = ref.avg_length_unit
+    rd = [frac(e) - frac(s) for s, e, _ in ref_units]
+    if not near(ravg, sum(rd, Fraction(0)) / len(rd)) or ref.avg_num_annotations_per_annotator != ref.num_units / len(ref):
+        rep.violation("reference-statistics", desc, "avg_length_unit / avg_num_annotations_per_annotator of the reference are not the stated means")
+    # gray zone on the iteration counts
+    # gray zone: the float evaluation of int(m * factor * x) disagrees with the exact one (integer boundary)
+    gray = False
+    for fl, ex in ((m * consts["FALSE_POS_FACTOR"] * len(ref), frac(m) * frac(consts["FALSE_POS_FACTOR"]) * len(ref)),
+                   (m * consts["SPLIT_FACTOR"] * ref.avg_num_annotations_per_annotator,
+                    frac(m) * frac(consts["SPLIT_FACTOR"]) * Fraction(ref.num_units, len(ref)))):
+        if int(fl) != ex.numerator // ex.denominator:
+            gray = True
+    if gray:
+        rep.gray += 1
+        return None
+    line = [620] + q(SEGMENT_PRECISION) + q(m) + q(consts["SHIFT_FACTOR"]) + q(consts["SPLIT_FACTOR"]) + q(consts["FALSE_POS_FACTOR"]) + \
+        [len(ref), ref.num_units] + q(ravg) + [1 if flags[f] else 0 for f in ("shift", "false_pos", "false_neg", "cat_shuffle", "split")] + \
+        w_list(init, lambda us: w_list(us, lambda u: q(u[0]) + q(u[1]) + [u[2]])) + w_list(to_stream(dr.log), lambda d: d)
+    return line, (desc, corpus, sorted(names), cats, ref, dr.log, ref_units)
+
+
+def judge(rep, meta, out):
+    """compares one run with the model's replay of its draws and with the output-level clauses; records the case; returns the list of (key, what)"""
+    desc, corpus, names, cats, ref, log, ref_units = meta
+    m, flags, include_ref = desc["magnitude"], desc["flags"], desc["include_ref"]
+    bad = []
+    on = [f for f in FLAGS if flags[f]]
+    rep.count("magnitude=%g" % m)
+    for f in on:
+        rep.count("flag=" + f)
+    # ---- model replay ----
+    if not isinstance(out, list) or out[0] != 1:
+        bad.append(("model-replay", "the model cannot replay the recorded draws (it expects another sequence of primitives): %r" % (out[:3] if isinstance(out, list) else out,)))
+        model = None
+    else:
+        if out[1] != 0:
+            bad.append(("model-replay", "%d recorded draws are not consumed by the model" % out[1]))
+        model = parse_corpus(out, 4)
+    want_names = sorted(names + (["Ref"] if include_ref else []))
+    got_names = list(corpus.annotators)
+    if got_names != want_names:
+        bad.append(("annotators", "corpus annotators %r, requested %r" % (got_names, want_names)))
+    fresh = True
+    if model is not None and got_names == want_names:
+        for a, mus in zip(names, model):
+            got = sorted((u.segment.start, u.segment.end, str(u.annotation)) for u in corpus[a])
+            want = sorted((float(s), float(e), str(cats[c]) if c < len(cats) else "?%d" % c) for s, e, c in mus)
+            if len(got) != len(want) or any(not (near(x[0], y[0]) and near(x[1], y[1]) and x[2] == y[2]) for x, y in zip(got, want)):
+                bad.append(("corpus-vs-model", "annotator %r: units %r, model %r" % (a, got, want)))
+                break
+    # ---- output-level clauses ----
+    refl = sorted((s, e, cats[c]) for s, e, c in ref_units)
+    for a in got_names:
+        us = [(u.segment.start, u.segment.end, u.annotation) for u in corpus[a]]
+        if not us:
+            bad.append(("empty-annotator", "annotator %r has no unit" % a))
+        if any(not (e > s) for s, e, _ in us):
+            bad.append(("non-positive-duration", "annotator %r holds a unit of non-positive duration" % a))
+        if any(l not in cats for _, _, l in us):
+            bad.append(("foreign-category", "annotator %r holds a category outside the reference's %r" % (a, cats)))
+        if a == "Ref" and include_ref:
+            if sorted(us) != refl:
+                bad.append(("reference-copy", "the included reference differs from the reference"))
+            continue
+        if m == 0 and sorted(us) != refl:
+            bad.append(("magnitude-zero", "magnitude 0 but annotator %r differs from the reference: %r" % (a, sorted(us))))
+        if len(on) == 1:
+            f = on[0]
+            segs = sorted(set((s, e) for s, e, _ in us))
+            rsegs = sorted(set((s, e) for s, e, _ in refl))
+            if f == "cat_shuffle" and segs != rsegs:
+                bad.append(("confinement:cat_shuffle", "category shuffling changed the segments of %r" % a))
+            if f == "false_neg" and not set(us) <= set(refl):
+                bad.append(("confinement:false_neg", "false negatives added or altered units of %r" % a))
+            if f == "false_pos" and not set(refl) <= set(us):
+                bad.append(("confinement:false_pos", "false positives removed or altered units of %r" % a))
+            if f == "shift" and len(us) != len(refl) and len(set(us)) == len(us):
+                # count can only drop through coincidences; flag a change only when the model (same set semantics) disagrees, handled above
+                pass
+            if f == "split":
+                tot = sum((frac(e) - frac(s) for s, e, _ in us), Fraction(0))
+                rtot = sum((frac(e) - frac(s) for s, e, _ in refl), Fraction(0))
+                if not near(tot, rtot):
+                    bad.append(("confinement:split", "splitting changed the total annotated duration of %r: %r -> %r" % (a, float(rtot), float(tot))))
+                if model is not None and isinstance(out, list) and out[0] == 1:
+                    ksplit = out[3]
+                    if len(us) > len(refl) + ksplit:
+                        bad.append(("confinement:split", "%d units after %d announced splits of %d units" % (len(us), ksplit, len(refl))))
+    # requested primitives: a few parameter checks
+    for e in log:
+        if e["name"] == "uniform" and flags["shift"] and not (flags["false_pos"] or flags["split"]):
+            if [float(x) for x in e["args"]] != [-1.0, 1.0]:
+                bad.append(("requested-primitive", "shift draws uniform%r instead of uniform(-1, 1)" % (tuple(e["args"]),)))
+                break
+    # parameters handed to the primitives when only false positives run: the category law is the reference's weights, the centre is uniform over
+    # the reference's bounds, the duration is normal with the mean / standard deviation of the reference's durations
+    if on == ["false_pos"]:
+        import math
+        w = ref.category_weights
+        rdur = [e_ - s_ for s_, e_, _ in ref_units]
+        mean = sum(rdur) / len(rdur)
+        std = math.sqrt(sum((x - mean) ** 2 for x in rdur) / len(rdur))
+        for e in log:
+            if e["name"] == "choice" and (e["p"] is None or any(abs(a - b) > 1e-9 for a, b in zip(e["p"], list(w.values()))) or len(e["p"]) != len(w)):
+                bad.append(("requested-primitive", "false positives draw their category with p=%r, reference weights %r" % (e["p"], list(w.values()))))
+                break
+            if e["name"] == "uniform" and not (abs(e["args"][0] - ref.bound_inf) < 1e-9 and abs(e["args"][1] - ref.bound_sup) < 1e-9):
+                bad.append(("requested-primitive", "false positives draw their centre from uniform%r, reference bounds %r" % (tuple(e["args"]), (ref.bound_inf, ref.bound_sup))))
+                break
+            if e["name"] == "normal" and not (abs(e["args"][0] - mean) < 1e-9 * max(1, mean) and abs(e["args"][1] - std) < 1e-9 * max(1, std)):
+                bad.append(("requested-primitive", "false positives draw their duration from normal%r, reference durations have mean %r and deviation %r" % (tuple(e["args"]), mean, std)))
+                break
+    nontriv = m > 0 and len(log) > 0
+    desc2 = dict(desc, draws=[(e["name"], e.get("index"), None if e["name"] == "choice" else float(e["result"])) for e in log][:600])
+    rep.case(sample={"magnitude": m, "flags": on, "annotators": names, "include_ref": include_ref, "primitives": len(log), "agree": not bad},
+             nontrivial_key=repr(desc2) if nontriv else None)
+    for key, what in bad:
+        rep.violation(key, desc2, what)
+    return bad
+
+
 def run(rep, tier, seed, pa):
     from pyannote.core import Segment
     from pyannote.core.segment import SEGMENT_PRECISION
@@ -102,151 +259,14 @@ def run(rep, tier, seed, pa):
         include_ref = rng.random() < 0.3
         desc = {"units": units, "magnitude": m, "annotators": anns, "flags": flags, "include_ref": include_ref}
         if ri % 3 == 2:
-            # the magnitude is a public attribute (tests/test_cst.py reassigns it): a tool built at another magnitude and then set to m
-            # must behave like a tool built at m - nothing may be frozen at construction time
-            m0 = rng.choice([x for x in (0.0, 0.5, 1.0) if x != m])
-            cst = CST(m0, ref)
-            cst.magnitude = m
-            desc["constructed_with_magnitude"] = m0
-            rep.count("magnitude_reassigned")
-        else:
-            cst = CST(m, ref)
-        np.random.seed(rng.randrange(2 ** 31))
-        try:
-            with Draws() as dr:
-                corpus = cst.corpus_shuffle(anns, shift=flags["shift"], false_pos=flags["false_pos"], false_neg=flags["false_neg"],
-                                            split=flags["split"], cat_shuffle=flags["cat_shuffle"], include_ref=include_ref)
-        except ValueError as e:
-            if "duration 0.0" in str(e):
-                rep.count("zero_length_draw_skipped")     # measure-zero draw: Continuum.add refuses the unit and the run stops (modelled as None)
-                continue
-            rep.case()
-            rep.violation("corpus_shuffle-raises", dict(desc, error=repr(e)), "corpus_shuffle raised %r" % (e,))
-            continue
-        except Exception as e:
-            rep.case()
-            rep.violation("corpus_shuffle-raises", dict(desc, error=repr(e)), "corpus_shuffle raised %r" % (e,))
-            continue
-        cats = sorted(ref.categories)
-        cid = {c: i for i, c in enumerate(cats)}
-        ref_units = [(u.segment.start, u.segment.end, cid[u.annotation]) for u in ref["Ref"]]
-        init = [list(ref_units) for _ in sorted(names)]
-        ravg = ref.avg_length_unit
-        rd = [frac(e) - frac(s) for s, e, _ in ref_units]
-        if not near(ravg, sum(rd, Fraction(0)) / len(rd)) or ref.avg_num_annotations_per_annotator != ref.num_units / len(ref):
-            rep.violation("reference-statistics", desc, "avg_length_unit / avg_num_annotations_per_annotator of the reference are not the stated means")
-        # gray zone on the iteration counts
-        # gray zone: the float evaluation of int(m * factor * x) disagrees with the exact one (integer boundary)
-        gray = False
-        for fl, ex in ((m * consts["FALSE_POS_FACTOR"] * len(ref), frac(m) * frac(consts["FALSE_POS_FACTOR"]) * len(ref)),
-                       (m * consts["SPLIT_FACTOR"] * ref.avg_num_annotations_per_annotator,
-                        frac(m) * frac(consts["SPLIT_FACTOR"]) * Fraction(ref.num_units, len(ref)))):
-            if int(fl) != ex.numerator // ex.denominator:
-                gray = True
-        if gray:
-            rep.gray += 1
-            continue
-        line = [620] + q(SEGMENT_PRECISION) + q(m) + q(consts["SHIFT_FACTOR"]) + q(consts["SPLIT_FACTOR"]) + q(consts["FALSE_POS_FACTOR"]) + \
-            [len(ref), ref.num_units] + q(ravg) + [1 if flags[f] else 0 for f in ("shift", "false_pos", "false_neg", "cat_shuffle", "split")] + \
-            w_list(init, lambda us: w_list(us, lambda u: q(u[0]) + q(u[1]) + [u[2]])) + w_list(to_stream(dr.log), lambda d: d)
-        lines.append(line)
-        metas.append((desc, corpus, sorted(names), cats, ref, dr.log, ref_units))
+            desc["constructed_with_magnitude"] = rng.choice([x for x in (0.0, 0.5, 1.0) if x != m])
+        r = execute(rep, pa, consts, desc, numpy_seed=rng.randrange(2 ** 31))
+        if r is not None:
+            lines.append(r[0])
+            metas.append(r[1])
     outs = run_model(lines)
-    for (desc, corpus, names, cats, ref, log, ref_units), out in zip(metas, outs):
-        m, flags, include_ref = desc["magnitude"], desc["flags"], desc["include_ref"]
-        bad = []
-        on = [f for f in FLAGS if flags[f]]
-        rep.count("magnitude=%g" % m)
-        for f in on:
-            rep.count("flag=" + f)
-        # ---- model replay ----
-        if not isinstance(out, list) or out[0] != 1:
-            bad.append(("model-replay", "the model cannot replay the recorded draws (it expects another sequence of primitives): %r" % (out[:3] if isinstance(out, list) else out,)))
-            model = None
-        else:
-            if out[1] != 0:
-                bad.append(("model-replay", "%d recorded draws are not consumed by the model" % out[1]))
-            model = parse_corpus(out, 4)
-        want_names = sorted(names + (["Ref"] if include_ref else []))
-        got_names = list(corpus.annotators)
-        if got_names != want_names:
-            bad.append(("annotators", "corpus annotators %r, requested %r" % (got_names, want_names)))
-        fresh = True
-        if model is not None and got_names == want_names:
-            for a, mus in zip(names, model):
-                got = sorted((u.segment.start, u.segment.end, str(u.annotation)) for u in corpus[a])
-                want = sorted((float(s), float(e), str(cats[c]) if c < len(cats) else "?%d" % c) for s, e, c in mus)
-                if len(got) != len(want) or any(not (near(x[0], y[0]) and near(x[1], y[1]) and x[2] == y[2]) for x, y in zip(got, want)):
-                    bad.append(("corpus-vs-model", "annotator %r: units %r, model %r" % (a, got, want)))
-                    break
-        # ---- output-level clauses ----
-        refl = sorted((s, e, cats[c]) for s, e, c in ref_units)
-        for a in got_names:
-            us = [(u.segment.start, u.segment.end, u.annotation) for u in corpus[a]]
-            if not us:
-                bad.append(("empty-annotator", "annotator %r has no unit" % a))
-            if any(not (e > s) for s, e, _ in us):
-                bad.append(("non-positive-duration", "annotator %r holds a unit of non-positive duration" % a))
-            if any(l not in cats for _, _, l in us):
-                bad.append(("foreign-category", "annotator %r holds a category outside the reference's %r" % (a, cats)))
-            if a == "Ref" and include_ref:
-                if sorted(us) != refl:
-                    bad.append(("reference-copy", "the included reference differs from the reference"))
-                continue
-            if m == 0 and sorted(us) != refl:
-                bad.append(("magnitude-zero", "magnitude 0 but annotator %r differs from the reference: %r" % (a, sorted(us))))
-            if len(on) == 1:
-                f = on[0]
-                segs = sorted(set((s, e) for s, e, _ in us))
-                rsegs = sorted(set((s, e) for s, e, _ in refl))
-                if f == "cat_shuffle" and segs != rsegs:
-                    bad.append(("confinement:cat_shuffle", "category shuffling changed the segments of %r" % a))
-                if f == "false_neg" and not set(us) <= set(refl):
-                    bad.append(("confinement:false_neg", "false negatives added or altered units of %r" % a))
-                if f == "false_pos" and not set(refl) <= set(us):
-                    bad.append(("confinement:false_pos", "false positives removed or altered units of %r" % a))
-                if f == "shift" and len(us) != len(refl) and len(set(us)) == len(us):
-                    # count can only drop through coincidences; flag a change only when the model (same set semantics) disagrees, handled above
-                    pass
-                if f == "split":
-                    tot = sum((frac(e) - frac(s) for s, e, _ in us), Fraction(0))
-                    rtot = sum((frac(e) - frac(s) for s, e, _ in refl), Fraction(0))
-                    if not near(tot, rtot):
-                        bad.append(("confinement:split", "splitting changed the total annotated duration of %r: %r -> %r" % (a, float(rtot), float(tot))))
-                    if model is not None and isinstance(out, list) and out[0] == 1:
-                        ksplit = out[3]
-                        if len(us) > len(refl) + ksplit:
-                            bad.append(("confinement:split", "%d units after %d announced splits of %d units" % (len(us), ksplit, len(refl))))
-        # requested primitives: a few parameter checks
-        for e in log:
-            if e["name"] == "uniform" and flags["shift"] and not (flags["false_pos"] or flags["split"]):
-                if [float(x) for x in e["args"]] != [-1.0, 1.0]:
-                    bad.append(("requested-primitive", "shift draws uniform%r instead of uniform(-1, 1)" % (tuple(e["args"]),)))
-                    break
-        # parameters handed to the primitives when only false positives run: the category law is the reference's weights, the centre is uniform over
-        # the reference's bounds, the duration is normal with the mean / standard deviation of the reference's durations
-        if on == ["false_pos"]:
-            import math
-            w = ref.category_weights
-            rdur = [e_ - s_ for s_, e_, _ in ref_units]
-            mean = sum(rdur) / len(rdur)
-            std = math.sqrt(sum((x - mean) ** 2 for x in rdur) / len(rdur))
-            for e in log:
-                if e["name"] == "choice" and (e["p"] is None or any(abs(a - b) > 1e-9 for a, b in zip(e["p"], list(w.values()))) or len(e["p"]) != len(w)):
-                    bad.append(("requested-primitive", "false positives draw their category with p=%r, reference weights %r" % (e["p"], list(w.values()))))
-                    break
-                if e["name"] == "uniform" and not (abs(e["args"][0] - ref.bound_inf) < 1e-9 and abs(e["args"][1] - ref.bound_sup) < 1e-9):
-                    bad.append(("requested-primitive", "false positives draw their centre from uniform%r, reference bounds %r" % (tuple(e["args"]), (ref.bound_inf, ref.bound_sup))))
-                    break
-                if e["name"] == "normal" and not (abs(e["args"][0] - mean) < 1e-9 * max(1, mean) and abs(e["args"][1] - std) < 1e-9 * max(1, std)):
-                    bad.append(("requested-primitive", "false positives draw their duration from normal%r, reference durations have mean %r and deviation %r" % (tuple(e["args"]), mean, std)))
-                    break
-        nontriv = m > 0 and len(log) > 0
-        desc2 = dict(desc, draws=[(e["name"], e.get("index"), None if e["name"] == "choice" else float(e["result"])) for e in log][:80])
-        rep.case(sample={"magnitude": m, "flags": on, "annotators": names, "include_ref": include_ref, "primitives": len(log), "agree": not bad},
-                 nontrivial_key=repr(desc2) if nontriv else None)
-        for key, what in bad:
-            rep.violation(key, desc2, what)
+    for meta, out in zip(metas, outs):
+        judge(rep, meta, out)
     # category_shuffle called directly with its optional arguments (corpus_shuffle never passes them): segments kept, categories those of the
     # reference, and the law handed to np.random.choice is a probability vector (one-hot on the unit's own category at magnitude 0)
     for ci in range(12 if tier == "quick" else 120):
@@ -308,17 +328,25 @@ def run(rep, tier, seed, pa):
 
 
 def replay(rep, data, pa):
-    units = [[tuple(u) for u in us] for us in data["units"]]
-    ref = gen.build_continuum(pa, units, names=["Ref"])
-    cst = pa.CorpusShufflingTool(data.get("constructed_with_magnitude", data["magnitude"]), ref)
-    cst.magnitude = data["magnitude"]
+    """re-runs corpus_shuffle with the recorded draws as a script, replays them in the model and judges the run again"""
+    if "flags" not in data or "draws" not in data:
+        print("  C19 replay: this record is a scripted witness / direct call; re-run ./check C19 quick (%s)" % (data.get("what"),))
+        return False
+    CST = pa.CorpusShufflingTool
+    consts = {"SHIFT_FACTOR": CST.SHIFT_FACTOR, "SPLIT_FACTOR": CST.SPLIT_FACTOR, "FALSE_POS_FACTOR": CST.FALSE_POS_FACTOR}
+    desc = {k: data[k] for k in ("units", "magnitude", "annotators", "flags", "include_ref", "constructed_with_magnitude") if k in data}
+    desc["units"] = [[tuple(u) for u in us] for us in desc["units"]]
     script = [(n, i if n == "choice" else (int(v) if n == "randint" else v)) for n, i, v in data["draws"]]
-    fl = data["flags"]
-    anns = data["annotators"]
-    with Draws(script=script):
-        corpus = cst.corpus_shuffle(anns, shift=fl["shift"], false_pos=fl["false_pos"], false_neg=fl["false_neg"], split=fl["split"],
-                                    cat_shuffle=fl["cat_shuffle"], include_ref=data["include_ref"])
-    for a in corpus.annotators:
-        print("  ", a, [(u.segment.start, u.segment.end, u.annotation) for u in corpus[a]])
-    print("  (compare with the recorded report: %s)" % data.get("what"))
-    return False
+    try:
+        r = execute(rep, pa, consts, desc, numpy_seed=data.get("seed", 0) % (2 ** 31), script=script, lenient=True)
+    except RuntimeError as e:      # the library asks for other primitives than the recorded ones
+        print("  the recorded draws can no longer be replayed: %s" % e)
+        return False
+    if r is None:
+        for key, path, what in rep.violations:
+            print("  (%s) %s" % (key, what))
+        return not rep.violations
+    bad = judge(rep, r[1], run_model([r[0]])[0])
+    for key, what in bad:
+        print("  (%s) %s" % (key, what[:300]))
+    return not bad
